@@ -222,6 +222,14 @@ def oracle(ctx, extra):
             for cfg in ({"renderer": "html", "plugins": list(P)}, {"renderer": "ast", "plugins": list(P), "hard_wrap": True}):
                 check(w, cfg, doc, fails, limit)
                 n += 1
+        # fenced directives with fence characters of the caller's choice (also ones that mean something in a pattern)
+        for c in "+*.%|^$?()[\\-=:!":
+            cfg = {"renderer": "html", "plugins": ["table", "footnotes"], "directives": "marker:" + c}
+            for doc in (c * 3 + "{note} T\nbody\n" + c * 3 + "\n", c * 4 + "{note}\n" + c * 3 + "{tip}\nx\n" + c * 3 + "\n" + c * 4 + "\n", "- a\n" + c * 3 + "{note}\ntext\n",
+                        c * 3 + "{note}\nunclosed " + c * 5 + "\n"):
+                dist["pump"] += 1
+                check(w, dict(cfg), doc, fails, limit)
+                n += 1
         inter = interruptions()
         for j, doc in enumerate(inter if not ctx.quick else [d for i, d in enumerate(inter) if ":" in d[:40] or "." in d[:40] or "`" in d[:40] or i % 3 == 0]):
             dist["pump"] += 1
